@@ -406,6 +406,15 @@ var reLemma = regexp.MustCompile(`^lemma\s+([A-Za-z_][A-Za-z0-9_]*)\s*\(([^)]*)\
 
 var reMacro = regexp.MustCompile(`^macro\s+([A-Za-z_][A-Za-z0-9_]*)\s*\(([^)]*)\)\s*=\s*(.*)$`)
 
+// TypeInv: the admissible configurations of a named type (its public fields are not protected by constructors)
+type TypeInv struct {
+	Type  string
+	Expr  *SExpr
+	Where string
+}
+
+var fileTypeInvs []*TypeInv
+
 var fileMacros []*Macro
 var rawMacros []struct{ name, params, body, where, pkg string }
 
@@ -454,6 +463,21 @@ func readContractFile(path, pkg string) ([]*Contract, error) {
 				}
 			}
 			fileMacros = append(fileMacros, &Macro{Name: m[1], Params: ps, Body: e, Pkg: pkg})
+			cur = nil
+			last = nil
+			continue
+		}
+		if strings.HasPrefix(body, "typeinv ") {
+			// //@ typeinv Sma :: self.Period >= 1   (admissible configurations of the type; assumed, see refine.go)
+			f := strings.SplitN(strings.TrimPrefix(body, "typeinv "), "::", 2)
+			if len(f) != 2 {
+				return nil, fmt.Errorf("%s: cannot parse typeinv %q", where, body)
+			}
+			x, err := parseSpec(strings.TrimSpace(f[1]))
+			if err != nil {
+				return nil, fmt.Errorf("%s: %v", where, err)
+			}
+			fileTypeInvs = append(fileTypeInvs, &TypeInv{Type: pkg + "." + strings.TrimSpace(f[0]), Expr: x, Where: where})
 			cur = nil
 			last = nil
 			continue
@@ -533,7 +557,7 @@ func readContractFile(path, pkg string) ([]*Contract, error) {
 	for _, c := range out {
 		for _, cl := range c.Clauses {
 			switch cl.Kind {
-			case "modifies", "borrows", "moves", "flushes", "witness", "stateless", "induction":
+			case "modifies", "borrows", "moves", "flushes", "witness", "stateless", "induction", "import":
 				for _, n := range strings.Split(cl.Text, ",") {
 					if n = strings.TrimSpace(n); n != "" {
 						cl.Names = append(cl.Names, n)
